@@ -339,40 +339,50 @@ Section VdbComplete.
 End VdbComplete.
 
 (* ------------------------------------------------------------------ binpkg install / replace *)
-Theorem bin_install_complete_proof base s cat pid pf chunks cache s' :
-  nolinks s -> bin_cat_ok cat = true -> bin_skip (pf ++ TBZ2) = false ->
-  run_opt (bin_install_ops s base cat pid pf chunks cache) s = Some s' ->
-  listed bin_cat_ok bin_skip false base s' cat (pf ++ TBZ2) = true
-  /\ content base s' cat (pf ++ TBZ2) [] = Some (concat chunks).
+(* the state right after the rename of the staged tarball *)
+Lemma bin_commit_state base s cat pid pf chunks t2 :
+  nolinks s ->
+  run_opt (bin_stage s base cat pid pf chunks ++ [Rename (bin_tmp base cat pid pf) (bin_final base cat pf)]) s = Some t2 ->
+  nolinks t2 /\ read_file t2 (bin_final base cat pf) = Some (concat chunks).
 Proof.
-  intros Hn Hc Hs H.
+  intros Hn H.
   set (tmp := bin_tmp base cat pid pf) in *. set (fin := bin_final base cat pf) in *.
   assert (Htf : tmp <> fin).
   { unfold tmp, fin, bin_tmp, bin_final. intro E. apply app_inv_head in E. injection E as E.
     change (TMP ++ (pid ++ DOT ++ pf ++ TBZ2) = pf ++ TBZ2) in E.
-    pose proof (bin_skip_tmp (pid ++ DOT ++ pf ++ TBZ2)) as T. rewrite E in T. congruence. }
-  unfold bin_install_ops in H. rewrite run_opt_app in H.
+    apply (f_equal (@length _)) in E. rewrite !app_length in E. change (length TMP) with 5 in E. lia. }
+  rewrite run_opt_app in H.
   destruct (run_opt (bin_stage s base cat pid pf chunks) s) as [t1|] eqn:ES; [|discriminate].
-  fold tmp fin in H. cbn [app run_opt] in H. step H t2 ER.
+  cbn [run_opt] in H. step H t2' ER. injection H as <-.
   assert (N1 : nolinks t1).
   { eapply nolinks_run_opt; [|exact Hn|exact ES]. eapply Forall_impl; [apply outside_plain|apply bin_stage_out]. }
-  assert (N2 : nolinks t2) by (eapply nolinks_step; [|exact N1|exact ER]; exact I).
-  (* the staged tarball *)
+  split; [eapply nolinks_step; [|exact N1|exact ER]; exact I|].
   unfold bin_stage in ES. fold tmp in ES. rewrite run_opt_app in ES. step ES ta Ea.
   cbn [run_opt] in ES. step ES tb Eo. rewrite run_opt_app in ES. step ES tc Ep. cbn [run_opt] in ES. step ES td Em.
   injection ES as <-.
   assert (D1 : read_file td tmp = Some (concat chunks)).
   { pose proof (open_w_empty _ _ _ _ _ Eo) as D0. pose proof (put_data _ _ _ _ _ D0 Ep) as Dp.
     exact (chmod_keeps _ _ _ _ _ Dp Em). }
-  destruct (rename_file _ _ _ _ _ N1 D1 Htf ER) as [R1 _].
-  (* the cache writes do not touch it *)
+  exact (proj1 (rename_file _ _ _ _ _ N1 D1 Htf ER)).
+Qed.
+
+Theorem bin_install_complete_proof base s cat pid pf chunks cache s' :
+  nolinks s -> bin_cat_ok cat = true -> bin_skip (pf ++ TBZ2) = false ->
+  run_opt (bin_install_ops s base cat pid pf chunks cache) s = Some s' ->
+  listed bin_cat_ok bin_skip false base s' cat (pf ++ TBZ2) = true
+  /\ content base s' cat (pf ++ TBZ2) [] = Some (concat chunks).
+Proof.
+  intros Hn Hc Hs H. set (fin := bin_final base cat pf).
+  unfold bin_install_ops in H. rewrite app_assoc, run_opt_app in H.
+  destruct (run_opt _ s) as [t2|] eqn:E2 in H; [|discriminate].
+  destruct (bin_commit_state _ _ _ _ _ _ _ Hn E2) as [N2 R1].
   pose proof (outside_run _ _ _ _ (bin_cache_out base s cache) t2 N2) as A.
   rewrite (run_opt_run _ _ _ H) in A.
   assert (V : visible bin_cat_ok bin_skip base fin) by (exists cat, (pf ++ TBZ2), []; auto).
   apply read_file_node in R1 as (m & u & g & ti & i & R1).
   split.
-  - unfold listed. rewrite Hc, Hs. change (base ++ [cat; pf ++ TBZ2]) with fin. rewrite (A fin V), R1. reflexivity.
-  - unfold content, read_file. change (base ++ [cat; pf ++ TBZ2]) with fin. now rewrite (A fin V), R1.
+  - unfold listed. rewrite Hc, Hs. change (base ++ [cat; pf ++ TBZ2]) with fin. rewrite (A fin V). unfold fin. rewrite R1. reflexivity.
+  - unfold content, read_file. change (base ++ [cat; pf ++ TBZ2]) with fin. rewrite (A fin V). unfold fin. now rewrite R1.
 Qed.
 
 (* non-vacuity: the hypotheses hold of the example install of Proofs_C29 *)
